@@ -81,7 +81,32 @@ pub fn run(tier: &str, seed: u64, outdir: &str, _extra: &[String]) {
         }
 
         // ---- wrappings of one payload ----
-        if it.kind == "animated" { continue; }
+        if it.kind == "animated" {
+            // the two settings of the VP8X alpha flag are the two "wrappings" of an animation: the RGB output (flag clear)
+            // must be the RGBA output (flag set) with the alpha byte dropped
+            if it.bytes.len() > 21 && &it.bytes[12..16] == b"VP8X" {
+                let (mut on, mut off) = (it.bytes.clone(), it.bytes.clone());
+                on[20] |= 0x10;
+                off[20] &= !0x10;
+                let ra = catch(std::panic::AssertUnwindSafe(|| decode_with(&on, &|n| vec![0x3c; n])));
+                let rb = catch(std::panic::AssertUnwindSafe(|| decode_with(&off, &|n| vec![0xc3; n])));
+                wrap_checks += 2;
+                match (ra, rb) {
+                    (Ok(Ok((_, _, true, pa))), Ok(Ok((_, _, false, pb)))) => {
+                        let want = drop_alpha(&pa);
+                        if pb != want {
+                            let i = (0..pb.len().min(want.len())).find(|&i| pb[i] != want[i]).unwrap_or(0);
+                            viol(&mut violations, format!("{name}/anim_alpha_flag: RGB output (flag clear) differs from the RGBA output (flag set) with alpha dropped at byte {} ({} vs {})", i, pb.get(i).copied().unwrap_or(0), want.get(i).copied().unwrap_or(0)));
+                        }
+                    }
+                    (Ok(Ok(a)), Ok(Ok(b))) => viol(&mut violations, format!("{name}/anim_alpha_flag: has_alpha {} / {} do not follow the flag", a.2, b.2)),
+                    (Ok(Err(_)), Ok(Err(_))) => {}
+                    (Ok(a), Ok(b)) => viol(&mut violations, format!("{name}/anim_alpha_flag: one flag setting decodes, the other does not: {:?} / {:?}", a.map(|x| x.0), b.map(|x| x.0))),
+                    (Err(pn), _) | (_, Err(pn)) => viol(&mut violations, format!("{name}/anim_alpha_flag: PANIC {pn}")),
+                }
+            }
+            continue;
+        }
         let ic = image_chunks(&it.bytes);
         let Some((cc, p)) = ic.iter().find(|c| &c.0 != b"ALPH") else { continue };
         let Some((w, h)) = payload_dims(cc, p) else { continue };
